@@ -189,6 +189,19 @@ class Normalizer:
             rf = self.atom(("uf", name, len(lst)), e)
             lst.append((args, rf))
             return rf
+        if k == z3.Z3_OP_ITE and not z3.is_bool(e):
+            # congruence for conditionals: same guard (syntactically, after simplification) and ring-equal branches
+            c = z3.simplify(ch[0])
+            a, b = self.nf(ch[1]), self.nf(ch[2])
+            if self.rf_eq(a, b):
+                return a
+            lst = self.uf.setdefault("ite!", [])
+            for (oc, oa, ob), rf in lst:
+                if oc.eq(c) and self.rf_eq(oa, a) and self.rf_eq(ob, b):
+                    return rf
+            rf = self.atom(("ite", len(lst)), e)
+            lst.append(((c, a, b), rf))
+            return rf
         return self.atom(("id", e.get_id()), e)
 
     # ---- goals
